@@ -52,7 +52,8 @@ class Oracle:
     def dump_entries(self, dump):
         w = dump.split()
         ents = []
-        for tok in w[2:]:
+        self.live = int(w[2][5:])        # `live=<n>`: blocks the library holds for the table
+        for tok in w[3:]:
             body = tok.split(":", 1)[1]
             assert body[0] == "[" and body[-1] == "]"
             for e in body[1:-1].split(","):
@@ -66,6 +67,9 @@ class Oracle:
             return "malformed result line"
         res, dump = line.split(" | ", 1)
         r = res.split()
+        if r and r[0].startswith("allocs="):      # allocation attempts of the call (overlay C11/C15)
+            r = r[1:]
+            res = " ".join(r)
         kind = w[0]
         m = self.m
         bad = None
@@ -75,9 +79,9 @@ class Oracle:
             return "undefined behaviour predicted: " + res
         if kind == "new":
             m.clear()
-        elif kind in ("put", "putstr", "putint"):
+        elif kind in ("put", "putstr", "putstrf", "putint"):
             name = unhex(w[1])
-            val = unhex(w[3]) if kind == "put" else unhex(w[3]) + b"\0" if kind == "putstr" else str(int(w[3])).encode() + b"\0"
+            val = unhex(w[3]) if kind == "put" else unhex(w[3]) + b"\0" if kind.startswith("putstr") else str(int(w[3])).encode() + b"\0"
             if r[0] != "true":
                 bad = "put of a valid key/value reported %s" % res
             m[name] = val
@@ -142,6 +146,7 @@ class TheCheck(Check):
     prop = "C05"
     module = "hashtbl"
     harness = "hashtbl"
+    lib = "libqw.a"        # allocator traffic of the library is counted (harness/allocwrap.h)
     rule = ("operation lines executed by the C functions (ASan+UBSan) and the Lean model with the chain layout dumped "
             "through the public structs after every operation; distinct_nontrivial = distinct (operation kind, result "
             "kind, range, chain length of the touched slot) classes")
@@ -185,8 +190,9 @@ class TheCheck(Check):
     def nontrivial_key(self, op, line):
         res, _, dump = line.partition(" | ")
         d = dump.split()
-        longest = max([t.count(",") + 1 for t in d[2:]] or [0])
-        return (op.split()[0], res.split()[0] if res else "", d[0] if d else "", min(longest, 9))
+        longest = max([t.count(",") + 1 for t in d[3:]] or [0])
+        r = [x for x in res.split() if not x.startswith("allocs=")]
+        return (op.split()[0], r[0] if r else "", d[0] if d else "", min(longest, 9))
 
     def shrink(self, st, idx, pred):
         # a stream is a concatenation of histories each starting with `new`: cut to the failing one
